@@ -11,8 +11,11 @@ import (
 	"encoding/json"
 	"fmt"
 	"log"
+	"net"
 	"strings"
 	"sync"
+	"sync/atomic"
+	"time"
 
 	tq "github.com/facebookincubator/tacquito"
 	"github.com/facebookincubator/tacquito/cmds/server/config"
@@ -156,14 +159,17 @@ type Options struct {
 // Ref is a running reference server.
 type Ref struct {
 	*kit.Srv
-	Loader *loader.Loader
-	Sink   *Sink
-	Keys   *KeyStore
-	Src    *Source
-	YAML   *yamlloader.YAML
-	JSON   *jsonloader.JSON
-	Ctx    context.Context
-	cancel context.CancelFunc
+	Loader   *loader.Loader
+	Sink     *Sink
+	Keys     *KeyStore
+	Src      *Source
+	YAML     *yamlloader.YAML
+	JSON     *jsonloader.JSON
+	Ctx      context.Context
+	cancel   context.CancelFunc
+	srcChan  chan config.ServerConfig // the source's channel
+	fwdChan  chan config.ServerConfig // the interposer's output channel (if any)
+	inFlight int32                    // configurations inside the interposer
 	// LoadedUpdates counts the loader's "updated all prefix filters" messages.
 	loadedMu sync.Mutex
 	loaded   int
@@ -232,8 +238,26 @@ func Start(cfg config.ServerConfig, opt Options) (*Ref, error) {
 		r.Src = NewSource()
 		src = r.Src
 	}
+	r.srcChan = src.Config()
 	if opt.Interpose != nil {
-		src = chanSource{opt.Interpose(src.Config())}
+		// count configurations that are between the two channels
+		mid := make(chan config.ServerConfig)
+		go func() {
+			for c := range r.srcChan {
+				atomic.AddInt32(&r.inFlight, 1)
+				mid <- c
+			}
+		}()
+		out := opt.Interpose(mid)
+		fwd := make(chan config.ServerConfig)
+		go func() {
+			for c := range out {
+				fwd <- c
+				atomic.AddInt32(&r.inFlight, -1)
+			}
+		}()
+		r.fwdChan = fwd
+		src = chanSource{fwd}
 	}
 	ld, err := loader.NewLoader(ctx, src,
 		loader.SetLoggerProvider(lg),
@@ -295,12 +319,20 @@ func (r *Ref) Publish(cfg config.ServerConfig) error {
 	return nil
 }
 
+// waitLoaded is a barrier that does not depend on what the loader logs: first
+// wait until the loader goroutine has taken the configuration off the source
+// channel (it then rebuilds providers and filters before returning to its
+// select loop), then send one lookup through the same loop; when that lookup
+// is answered the rebuild has completed.
 func (r *Ref) waitLoaded(before int) {
-	r.loadedMu.Lock()
-	for r.loaded == before {
-		r.loadedC.Wait()
+	deadline := time.Now().Add(30 * time.Second)
+	for time.Now().Before(deadline) {
+		if len(r.srcChan) == 0 && (r.fwdChan == nil || len(r.fwdChan) == 0) && atomic.LoadInt32(&r.inFlight) == 0 {
+			break
+		}
+		time.Sleep(50 * time.Microsecond)
 	}
-	r.loadedMu.Unlock()
+	r.Loader.Get(context.Background(), &net.TCPAddr{IP: net.IPv4(203, 0, 113, 254), Port: 1})
 }
 
 // PublishDoc feeds a raw document to the real yaml/json loader object (what the
